@@ -20,11 +20,18 @@
      {Greedy, DepthFirst} x {LongestPath, NetworkSimplex} x {VAlign, PackRight, SinkColoring} x {Straight,
      Polyline, Ortho} (C01_layout_returns). The only side condition, thoroughness * sqrt(2|E|) <= 100000, is an
      artefact of the model's fuel cap on the pivot loop, not of the code.
-   C01_partial: NOT covered by the theorem: the NetworkSimplex positioner and Brandes-Koepf as positioners
-   (termination of hbalance's recursion and of the Brandes-Koepf loops is not proved; the latter's functional
-   model runs on explicit fuel), and spline routing (recorded finding). For these the check relies on the
-   correspondence — the model, run with explicit fuel on every traced case, must return Ok and reproduce the
-   implementation — and on a watchdog search of the implementation (wall clock and heap per call).
+   - the NetworkSimplex POSITIONER: the auxiliary graph is well-formed, acyclic and connected (Proofs/NSPositioner.v,
+     TotalNSP2.v), network simplex with horizontal balancing returns (adjust_layers only recurses into strictly
+     smaller subtrees of the spanning tree, Proofs/TotalNSP.v), hence Layout returns with that positioner too
+     (C01_layout_returns_ns_positioner); the budget side condition is stated on the input alone because no band of
+     a layering is empty, so at most |N| + |E|*|N| nodes exist after long edges are broken;
+   - Brandes-Koepf (Model/BK.v, Model/PipelineBK.v): markConflicts, verticalAlign (blocks are cyclic lists with at
+     most one node per layer), horizontalCompaction/placeBlock, balancing and the final assignment all return on
+     every proper non-empty layering (Proofs/BKTotal*.v), and the state after phase 3 is one, hence Layout with
+     PositioningBrandesKoepf and any WithBrandesKoepfLayout value returns (C01_layout_returns_brandes_koepf).
+   C01_partial: NOT covered by a theorem: spline routing (the corridor it builds for edges spanning several bands is
+   ill-formed and the router then panics or does not return: recorded finding `spline-corridor`). There the check
+   relies on the correspondence and on a watchdog search of the implementation (wall clock and heap per call).
    Stack overflow, out-of-memory and wall-clock time are runtime behaviour that no Gallina model exhibits; the
    recorded finding `ns-positioner-slow` is of that kind. *)
 From Coq Require Import List ZArith.
@@ -76,3 +83,27 @@ Theorem C01_layout_returns : forall (A : Type) (eqA : A -> A -> bool), (forall x
   exists ids r, layout A eqA o fixed sizes es = Ok (ids, r).
 Proof. exact layout_total. Qed.
 Print Assumptions C01_layout_returns.
+
+(* with the NetworkSimplex positioner (budget conditions on the input alone) *)
+From Autog Require TotalNSP2.
+Theorem C01_layout_returns_ns_positioner : forall (A : Type) (eqA : A -> A -> bool), (forall x y, eqA x y = true <-> x = y) ->
+  forall o (fixed : option (Q * Q)) (sizes : option (list (A * (Q * Q)))) (es : list (list A)),
+  es <> [] -> Forall (fun p => length p = 2%nat) es -> TotalNSP2.layout_options_ok_input A o es ->
+  exists ids r, layout A eqA o fixed sizes es = Ok (ids, r).
+Proof. exact TotalNSP2.layout_total'_input. Qed.
+Print Assumptions C01_layout_returns_ns_positioner.
+
+(* with Brandes-Koepf, every value of BrandesKoepfLayout *)
+From Autog Require PipelineBK BKTotal3.
+Theorem C01_layout_returns_brandes_koepf : forall (A : Type) (eqA : A -> A -> bool), (forall x y, eqA x y = true <-> x = y) ->
+  forall bk o (fixed : option (Q * Q)) (sizes : option (list (A * (Q * Q)))) (es : list (list A)),
+  es <> [] -> Forall (fun p => length p = 2%nat) es -> BKTotal3.layout_x_options_ok A o es ->
+  exists ids r, PipelineBK.layout_x A eqA bk o fixed sizes es = Ok (ids, r).
+Proof. exact BKTotal3.layout_x_total. Qed.
+Print Assumptions C01_layout_returns_brandes_koepf.
+
+(* the positioners on their own, on any proper non-empty layering *)
+From Autog Require BK BKTotal BKTotal2.
+Theorem C01_brandes_koepf_total : forall variant p g, BKTotal.bk_wf g -> exists g', BK.phase4_bk variant p g = Ok g'.
+Proof. exact BKTotal2.phase4_bk_total. Qed.
+Print Assumptions C01_brandes_koepf_total.
